@@ -18,4 +18,23 @@ func c07(p *core.Program, r *core.Report) {
 	c07Rows(p, r, b)
 	r.Rule("R6", "the count cache is not storage: in every function that consults <fragment>.cache.Get, every path on which the value may be zero (a test of the value or of a local holding it, evaluated against 0) reads the row from storage (fragment.row/unprotectedRow/rowFromStorage/bit or a method of <fragment>.storage) before it returns")
 	c07CacheIsNotStorage(p, r)
+	r.Rule("R7", "changed means bits: a fragment method with a result named changed that fetches containers with Containers.Get sets changed = true, on a path that found such a container, only after a condition on that container's N()")
+	c07ChangedMeansBits(p, r)
+	// R8: the container lookaside of file-backed storage is one of this property's anchors: a stale
+	// lookaside makes fragment.bit/value and the single-bit writers miss a completed import. The
+	// obligations are C02-R1's, evaluated here under this property.
+	r.Rule("R8", "lookaside coherence (= C02-R1): every method path of a Containers implementation that writes the collection refreshes or invalidates the most-recently-used container that Get/GetOrCreate answer from")
+	{
+		tmp := core.NewReport("C02", r.Tier)
+		c02(p, tmp)
+		nR8 := 0
+		for _, o := range tmp.Obls {
+			if o.Rule == "R1" {
+				o.Rule = "R8"
+				r.Obls = append(r.Obls, o)
+				nR8++
+			}
+		}
+		r.Floor("C07/R8 lookaside obligations taken over from C02-R1", nR8, 10)
+	}
 }
